@@ -1,4 +1,5 @@
 import PebblesVerif.Props.C12
+import PebblesVerif.Props.C12Flat
 open PebblesVerif.IndexMap PebblesVerif.Levels
 #print axioms C12_facts
 #print axioms C12_dedup
@@ -10,3 +11,11 @@ open PebblesVerif.IndexMap PebblesVerif.Levels
 #print axioms C12_dedup_requests
 #print axioms C12_one_call_per_level
 #print axioms C12_levels_bound
+#print axioms PebblesVerif.C12_flat_list_calls_independent_of_length
+#print axioms PebblesVerif.C12_flat_list_calls_same_for_all_lengths
+#print axioms PebblesVerif.C12_flat_list_identical_lookups_once
+#print axioms PebblesVerif.C12_flat_nested_one_call_per_service_per_level
+#print axioms PebblesVerif.C12_flat_list_instance
+#print axioms PebblesVerif.C12_flat_list_instance3
+#print axioms PebblesVerif.C12_flat_list_instance_dup
+#print axioms PebblesVerif.C12_flat_nested_instance
